@@ -63,9 +63,28 @@ SPEC = {
 RCODE_NAMES = {0: 'NOERROR', 1: 'FORMERR', 2: 'SERVFAIL', 3: 'NXDOMAIN', 4: 'NOTIMP', 5: 'REFUSED', 9: 'NOTAUTH'}
 
 
+_FACTS = [None]
+
+
+def _region_calls_with_closures(fn, region, depth=0):
+    """Calls in the region, plus the calls of closures that are built in it (a loop body rewritten as
+    `iter.try_for_each(|x| ..)` or `execute(|| ..)` keeps its effects)."""
+    out = list(tables.region_calls(fn, region))
+    F = _FACTS[0]
+    if F is None or depth > 2:
+        return out
+    for b in sorted(region):
+        for st in fn.blocks[b]['stmts']:
+            if st['k'] == 'assign' and st['rv']['k'] == 'agg' and st['rv'].get('ak') == 'closure':
+                c = F.fns.get(st['rv']['def'])
+                if c is not None:
+                    out += _region_calls_with_closures(c, set(range(len(c.blocks))), depth + 1)
+    return out
+
+
 def effect_set(fn, region):
     out = set()
-    for name, cargs, b in tables.region_calls(fn, region):
+    for name, cargs, b in _region_calls_with_closures(fn, region):
         if name not in UNIVERSE:
             continue
         s = name.split('::')[-1]
@@ -99,6 +118,8 @@ def check_referral_glue(R, F):
             other_vec = base
     R.require(glue_vec is not None and other_vec is not None and glue_vec != other_vec, 'referral-glue', Q + 'do_referral|classification', dr.where(),
               'NS targets split by eq_or_subdomain_of(child_zone)', 'cannot find the split of NS targets by eq_or_subdomain_of(child_zone) into two vectors')
+    if glue_vec is None or other_vec is None:
+        return
 
     def iterated_vec(fn, operand):
         sl = slice_of(fn, operand)
@@ -182,6 +203,7 @@ def check_lookup_options(R, F):
 
 
 def check(R, F):
+    _FACTS[0] = F
     check_lookup_options(R, F)
 
     # ---- (a) outcome tables
